@@ -1247,6 +1247,13 @@ func (m *Memberlist) suspectNode(s *suspect) {
 	max := time.Duration(m.config.SuspicionMaxTimeoutMult) * min
 	fn := func(numConfirmations int) {
 		verifYieldKey("susptimeout", m, s.Node)
+		// A suspicion timer may outlive Shutdown by a long time (up to the
+		// maximum suspicion timeout): do not declare anybody dead, notify
+		// the event delegate or queue broadcasts on a shut down instance.
+		if m.hasShutdown() {
+			return
+		}
+
 		var d *dead
 
 		m.nodeLock.Lock()
